@@ -123,7 +123,11 @@ func runCliMulti(c *mon.Case) {
 		c.Failf("cli-multi:differs-from-one-alignment-at-a-time", "goalign %s -p on a file of %d alignments (exit %d) differs from the same command on each alignment alone:\n--- all at once\n%s\n--- one at a time\n%s\nstderr: %s", strings.Join(tpl, " "), k, ex, so, cat.String(), se)
 		return
 	}
-	c.Count("cli-multi:" + tpl[0] + "-" + tpl[1])
+	label := tpl[0]
+	if len(tpl) > 1 {
+		label += "-" + tpl[1]
+	}
+	c.Count("cli-multi:" + label)
 	c.Count("cli-multi:ok")
 	c.NonTrivial(strings.Join(tpl, " "), gen.Itoa(c.Idx))
 }
